@@ -23,7 +23,8 @@ execution of the engine model:
   of failure is schedule-independent; *which* root cause is reported when several nodes fail independently is not, and
   the theorem says it is always one of them);
 * `solution_exists`: the equations have a solution for every acyclic pipeline, so the statements are not vacuous;
-* in every state of a pending run every stored result is the solution's value (`C01_plain_results_agree`) — this is
+* in every state of a pending run — before the finishing phase (`Fin`: the outcome is decided, the caller is suspended
+  in `on_pipeline_complete`) — every stored result is the solution's value (`C01_plain_results_agree`) — this is
   also what C03 (arguments are the sources' values) and C05 rest on.
 
 Switch / one-of / recurrent shapes: the reference evaluator `Sem` is compared with the real runs and with the
@@ -35,15 +36,8 @@ open MLPE
 /-- the step that ends a pending plain run produces an outcome explained by the solution -/
 theorem C01_plain_outcome (P : Program) (d : DagRef) (val : Node → Option Val) (hp : PlainP P d) (s : St)
     (h : Live P s) (hpending : s.outcome = none) (c : Choice) (hor : OracleOK P s c) (s' : St) (obs : List Obs)
-    (hs : step P s c = some (s', obs)) (o : Outcome) (ho : s'.outcome = some o) : OutcomeOK P d val s o := by
-  have hinv : PInv P d val s := pinv_live hp h hpending
-  rcases pinv_step hp hinv c (s', obs) hs hor (coreInv_reach h.reach) with ⟨o', ho', hok⟩ | h2
-  · simp only at ho'
-    rw [ho] at ho'; cases ho'
-    exact hok
-  · have := h2.quiet.pend
-    simp only at this
-    rw [ho] at this; cases this
+    (hs : step P s c = some (s', obs)) (o : Outcome) (ho : s'.outcome = some o) : OutcomeOK P d val s o :=
+  outcome_live hp h hpending c hor (s', obs) hs o ho
 
 /-- **C01 (plain): a returned value is the dataflow value of the output node** -/
 theorem C01_plain_value (P : Program) (d : DagRef) (val : Node → Option Val) (hp : PlainP P d)
@@ -79,12 +73,13 @@ theorem C01_plain_cancelled_only_on_request (P : Program) (d : DagRef) (hp : Pla
 
 /-- every stored result of a pending run is the solution's value of its node -/
 theorem C01_plain_results_agree (P : Program) (d : DagRef) (val : Node → Option Val) (hp : PlainP P d)
-    (hsol : Solution P d val) (s : St) (h : Live P s) (hpending : s.outcome = none) (n : Node) (v : Val)
-    (hr : s.res n = some v) : val n = some v := by
-  have hinv : PInv P d val s := pinv_live hp h hpending
-  rcases hinv.rest with ⟨_, h2⟩ | ⟨L, _, _, hnodes, hfresh⟩
-  · rw [(h2 n).2] at hr; cases hr
-  · exact agree_of_nodes hnodes hfresh n v hr hsol
+    (hsol : Solution P d val) (s : St) (h : Live P s) (hpending : s.outcome = none)
+    (hrun : ∀ o, ¬ Fin P d val o s) (n : Node) (v : Val) (hr : s.res n = some v) : val n = some v := by
+  rcases pinv_live (val := val) hp h hpending with hinv | ⟨o, hf⟩
+  · rcases hinv.rest with ⟨_, h2⟩ | ⟨L, _, _, hnodes, hfresh⟩
+    · rw [(h2 n).2] at hr; cases hr
+    · exact agree_of_nodes hnodes hfresh n v hr hsol
+  · exact absurd hf (hrun o)
 
 /-- **schedule independence of the value**: two executions that both return a value return the same one -/
 theorem C01_plain_values_agree (P : Program) (d : DagRef) (val : Node → Option Val) (hp : PlainP P d)
